@@ -289,6 +289,18 @@ def run(mon: Monitor, tier: str, seed: int, shard: int, nshards: int) -> None:
                 r = random.Random(rng.getrandbits(48))
                 src, _w = gen.window_geobox(r, (c1, lo0, la0, lo1, la1), npix=(800, 700), extent_deg=min(ext, (lo1 - lo0) * 0.44, (la1 - la0) * 0.44), fam=fam)
                 call(compute_output_geobox, src, tgt, resolution=r.choice(["auto", "fit"]))
+        # geographic to geographic is not "just a datum shift": rotated-pole model grids (EURO-CORDEX EUR-11) have straight edges that are strongly curved in lon/lat
+        import pyproj
+        from affine import Affine
+        from odc.geo.geobox import GeoBox
+
+        rot_wkt = pyproj.CRS.from_cf({"grid_mapping_name": "rotated_latitude_longitude", "grid_north_pole_latitude": 39.25, "grid_north_pole_longitude": -162.0}).to_wkt()
+        eur11 = GeoBox((412, 424), Affine(0.11, 0, -28.375, 0, -0.11, 21.835), rot_wkt)
+        for src_, tgt_ in [(eur11, "EPSG:4326"), (eur11[100:250, 100:300], "EPSG:4326"), (eur11, "EPSG:4258"), (GeoBox((300, 500), Affine(0.1, 0, -10.0, 0, -0.1, 65.0), "EPSG:4326"), rot_wkt),
+                           (eur11[50:200, 200:400], "EPSG:3035")]:
+            for kw_ in ({}, {"resolution": "fit"}, {"tight": True}):
+                call(compute_output_geobox, src_, tgt_, **kw_)
+                mon.obs["rotated_pole_probes"] += 1
         for pt, n in [("compute_output_geobox", 350), ("compute_output_geobox|auto|north-up|cross", 20), ("compute_output_geobox|fit|north-up|cross", 10), ("compute_output_geobox|same|north-up|cross", 10),
                       ("compute_output_geobox|explicit|north-up|cross", 10), ("compute_output_geobox|auto|rotated|cross", 8), ("compute_output_geobox|auto|north-up|utm", 5),
                       ("compute_output_geobox|shape|north-up|cross", 2), ("compute_output_geobox|shape|north-up|cross|int", 2), ("compute_output_geobox|identity", 10), ("compute_output_geobox|shape+resolution|north-up|cross", 2)]:
